@@ -265,6 +265,77 @@ def step10 (B : Nat) (st : M10) (x : TEntry) : Option M10 :=
 
 def P10 (B : Nat) (tr : Trace) : Bool := checkTrace (step10 B) { cur := none, alive := true } tr
 
+/-! ### C11: the client never advertises a piece it has not verified -/
+
+structure M11 where
+  choked : Bool             -- the peer is choking us
+  buffered : List Nat       -- announcements held back, in completion order
+  alive : Bool
+
+def haveWrites (obs : List Obs) : List Nat := (writes obs).filterMap fun | .haveP i => some i | _ => none
+def bitfieldWrites (obs : List Obs) : List Bytes := (writes obs).filterMap fun | .bitfield b => some b | _ => none
+
+/-- C11 monitor. `Have i` is written only in reaction to the manager's `SendHave i` (which the manager broadcasts
+    only after piece `i` was verified, stored and marked owned): at once if the peer is not choking us, otherwise it
+    is held back; when the peer unchokes, all held-back announcements are written first, in the order they were
+    broadcast, and nothing stays behind. The only bitfield ever written is the one the manager computed at `Init`. -/
+def step11c (st : M11) (inp : TIn) (obs : List Obs) (ended : Option Bool) : Option M11 :=
+  let bfOk : Bool := match inp with
+    | .start (.bitfield b) => decide (bitfieldWrites obs = [] ∨ bitfieldWrites obs = [b])
+    | .frame (.handshake ..) (.bitfield b) _ => decide (bitfieldWrites obs = [] ∨ bitfieldWrites obs = [b])
+    | _ => decide (bitfieldWrites obs = [])
+  if !bfOk then none else
+  match inp with
+  | .bcHave i _ =>
+    if st.choked then
+      if haveWrites obs = [] then some { st with buffered := st.buffered ++ [i], alive := ended.isNone } else none
+    else if haveWrites obs = [i] then some { st with alive := ended.isNone } else none
+  | .frame .choke _ _ =>
+    if haveWrites obs = [] then some { st with choked := st.choked || (cmds obs).contains .recvChoke, alive := ended.isNone } else none
+  | .frame .unchoke _ _ =>
+    if (cmds obs).contains .recvUnchoke then
+      -- the flush comes before anything else the task writes in this step
+      if haveWrites obs = st.buffered ∧ (writes obs).take st.buffered.length = st.buffered.map .haveP
+      then some { choked := false, buffered := [], alive := ended.isNone } else none
+    else if haveWrites obs = [] then some { st with alive := ended.isNone } else none
+  | _ => if haveWrites obs = [] then some { st with alive := ended.isNone } else none
+
+def step11 (st : M11) (x : TEntry) : Option M11 :=
+  if !st.alive then (if deadOk x then some st else none) else step11c st x.1 x.2.1 x.2.2
+
+def P11 (tr : Trace) : Bool := checkTrace step11 { choked := true, buffered := [], alive := true } tr
+
+/-! ### C01 (connection-task part): only hash-verified data is stored and reported -/
+
+structure M01 where
+  want : Option Bytes      -- the listed hash of the piece this connection is downloading
+  alive : Bool
+
+/-- C01 monitor (task part). A piece file is written only under the name of the hash listed for the assigned piece
+    and only with contents that hash to exactly that value; `PieceDone` is reported only immediately after such a
+    store, and every store is reported. -/
+def step01c (st : M01) (inp : TIn) (obs : List Obs) (ended : Option Bool) : Option M01 :=
+  let saves := savedObs obs
+  let savesOk := match saves with
+    | [] => true
+    | [(name, dataHash, _)] => decide (st.want = some name ∧ dataHash = name)
+    | _ => false
+  -- PieceDone exactly once per store, right after it
+  let doneOk :=
+    (obs.filter (fun o => match o with | .saved .. => true | .cmd .pieceDone => true | _ => false)).map
+      (fun o => match o with | .saved .. => true | _ => false) = (if saves.isEmpty then [] else [true, false])
+  if !(savesOk && decide doneOk) then none else
+  let want' := match assigned inp obs with
+    | some (some rd) => some rd.hash
+    | some none => none
+    | none => st.want
+  some { want := want', alive := ended.isNone }
+
+def step01 (st : M01) (x : TEntry) : Option M01 :=
+  if !st.alive then (if deadOk x then some st else none) else step01c st x.1 x.2.1 x.2.2
+
+def P01 (tr : Trace) : Bool := checkTrace step01 { want := none, alive := true } tr
+
 /-! ### C06 (level 3): a receive error ends the task at once -/
 
 def step06 (alive : Bool) (x : TEntry) : Option Bool :=
